@@ -449,7 +449,23 @@ func c19ParseOnce(src string, native bool, order uint64) (res c19Parse, permuted
 	if native {
 		cfg = &parser.ParserConfig{Funcs: c19funcs}
 	}
-	prog, err := parser.ParseProgram([]byte(src), cfg)
+	// the source is handed over as a sub-slice of a larger srcBuffer: parsing must not write to it
+	srcBuf := make([]byte, len(src)+16)
+	for i := range srcBuf {
+		srcBuf[i] = 0xAA
+	}
+	copy(srcBuf, src)
+	prog, err := parser.ParseProgram(srcBuf[:len(src)], cfg)
+	for i := range srcBuf {
+		want := byte(0xAA)
+		if i < len(src) {
+			want = src[i]
+		}
+		if srcBuf[i] != want {
+			res.Panic = fmt.Sprintf("ParseProgram modified the caller's srcBuffer at offset %d (source length %d): %#x -> %#x", i, len(src), want, srcBuf[i])
+			return
+		}
+	}
 	if err != nil {
 		res.Err = err.Error()
 		return
